@@ -51,7 +51,7 @@ ASSUMPTIONS = [
 
 def gen_cases(tier, seed):
     rng = np.random.default_rng([seed, 109])
-    n = 20 if tier == 'quick' else 200
+    n = 20 if tier == 'quick' else 800
     cases = []
     if tier == 'thorough':
         # clusters beyond 65 535 cells (16-bit counters)
